@@ -179,6 +179,9 @@ struct Conn {
     /// the FIN with an immediate RST would NOT be neutral: it turns the client's next write error
     /// from EPIPE into ECONNRESET.
     peer_closed: bool,
+    /// this connection once swallowed a request ("silent" outcome): it stays silent for good, like a connection stuck in a
+    /// hung worker, while NEW connections are served normally. A client that keeps it cached is talking to nobody.
+    wedged: bool,
 }
 
 struct NodeInner {
@@ -252,7 +255,7 @@ impl NodeInner {
                 let _ = s.set_nodelay(true);
                 self.next_conn += 1;
                 let id = self.next_conn;
-                self.conns.push(Conn { id, s, buf: vec![], half_closed: false, peer_closed: false });
+                self.conns.push(Conn { id, s, buf: vec![], half_closed: false, peer_closed: false, wedged: false });
                 self.ev(id, Ev::Accepted);
             }
         }
@@ -326,6 +329,10 @@ impl NodeInner {
         if h.notify != 0 {
             return true;
         }
+        if c.wedged {
+            self.ev(c.id, Ev::Ignored);
+            return true;
+        }
         let base = SpecHeader { spec: oracle::SPEC, version: 1, id: h.id, query_format: h.query_format, ..Default::default() };
         let (bytes, ev) = match self.mode {
             Out::Success | Out::IdleNoticed | Out::IdleQuick => {
@@ -355,6 +362,7 @@ impl NodeInner {
             }
             Out::Silent => {
                 self.ev(c.id, Ev::Ignored);
+                c.wedged = true;
                 return true;
             }
             Out::AcceptClose | Out::Refused => {
